@@ -155,7 +155,7 @@ def run(ctx):
         n += write_lines(f, "D", deep_cases(thorough))
     st = selftest(ctx, some_vec, some_near)
     res = ctx.harness_json("grammar", ["c09", vec, "900" if thorough else "300"], timeout=3000)
-    if res["evaluations"] < n:
+    if res["evaluations"] < n and not res.get("failures"):
         raise Infra("harness replayed %d of %d cases" % (res["evaluations"], n))
     ex = res.get("extra") or {}
     if ex.get("arbitrary_accepted", 0) < 100 or ex.get("arbitrary_rejected", 0) < 100:
